@@ -6,6 +6,7 @@ import (
 	"reflect"
 	"sort"
 	"strings"
+	"sync/atomic"
 	"unicode"
 
 	hcl "Havoc/pkg/profile/yaotl"
@@ -14,6 +15,8 @@ import (
 	"github.com/zclconf/go-cty/cty"
 	"github.com/zclconf/go-cty/cty/function"
 	"github.com/zclconf/go-cty/cty/function/stdlib"
+
+	"verifharness/internal/core"
 )
 
 var startPos = hcl.Pos{Line: 1, Column: 1, Byte: 0}
@@ -318,4 +321,77 @@ func sameValue(got, want cty.Value) bool {
 		return true
 	}
 	return false
+}
+
+// ---------------------------------------------------------------- results stay what they were
+
+// kept is one []byte handed out by the library, retained exactly as returned,
+// with a string copy taken at that moment.
+type kept struct {
+	from string
+	b    []byte
+	s    string
+}
+
+// keeper retains every serialisation result of a case.  After each later library
+// serialisation, and at the end of the case, every retained slice must still equal
+// its copy.  The last result of the previous case of this process stays retained
+// into the next case (buffers may be shared across calls of a whole process).
+type keeper struct {
+	items []kept
+	viol  *core.Violation
+}
+
+var (
+	prevCaseResult *kept
+	retainedTotal  int64
+)
+
+func newKeeper() *keeper {
+	k := &keeper{}
+	if prevCaseResult != nil {
+		it := *prevCaseResult
+		it.from += "@previous-case"
+		k.items = append(k.items, it)
+	}
+	k.check("case-start")
+	return k
+}
+
+func (k *keeper) check(later string) {
+	if k.viol != nil {
+		return
+	}
+	for _, it := range k.items {
+		if string(it.b) != it.s {
+			k.viol = core.V("result-changed-after-later-call|"+it.from+"|"+later,
+				"the []byte returned by %s changed when %s was called later\nit was:\n%s\nit is now:\n%s", it.from, later, clip(it.s, 1500), clip(string(it.b), 1500))
+			return
+		}
+	}
+}
+
+// keep retains b (returned by entry point from) and returns it unchanged.
+func (k *keeper) keep(from string, b []byte) []byte {
+	k.check(from)
+	k.items = append(k.items, kept{from: from, b: b, s: string(b)})
+	atomic.AddInt64(&retainedTotal, 1)
+	return b
+}
+
+// finish is the end-of-case check; v is the violation of the case's own oracle, if any.
+func (k *keeper) finish(v *core.Violation) *core.Violation {
+	k.check("end-of-case")
+	if n := len(k.items); n > 0 {
+		last := k.items[n-1]
+		if prevCaseResult != nil && n == 1 {
+			last.from = prevCaseResult.from
+		}
+		prevCaseResult = &last
+	}
+	core.SetExtra("c20_retained_results", atomic.LoadInt64(&retainedTotal))
+	if k.viol != nil {
+		return k.viol
+	}
+	return v
 }
